@@ -209,6 +209,39 @@ var c18Entries = []c18Entry{
 		}
 		return jsonRepr(d, err), err != nil, x
 	}},
+	{"accessors", func(in []byte) (string, bool, string) {
+		// the derived accessors of the typed documents must be total too
+		var out []interface{}
+		anyErr := true
+		if bi, err := control.ParseBinaryIndex(bufio.NewReader(bytes.NewReader(in))); err == nil {
+			anyErr = false
+			for i := range bi {
+				e := &bi[i]
+				out = append(out, e.SourcePackage(), e.GetDepends(), e.GetPreDepends(), e.GetSuggests(), e.GetConflicts(), e.GetBreaks(), e.GetReplaces(), e.GetBuiltUsing())
+			}
+		}
+		if si, err := control.ParseSourceIndex(bufio.NewReader(bytes.NewReader(in))); err == nil {
+			anyErr = false
+			for i := range si {
+				e := &si[i]
+				out = append(out, e.GetBuildDepends(), e.GetBuildDependsArch(), e.GetBuildDependsIndep())
+			}
+		}
+		if d, err := control.ParseDsc(bufio.NewReader(bytes.NewReader(in)), "/d/x.dsc"); err == nil {
+			anyErr = false
+			ds, derr := d.DebianSource()
+			out = append(out, d.Maintainers(), d.HasArchAll(), d.AbsFiles(), ds, fmt.Sprint(derr))
+		}
+		if ch, err := control.ParseChanges(bufio.NewReader(bytes.NewReader(in)), "/d/x.changes"); err == nil {
+			anyErr = false
+			out = append(out, ch.AbsFiles())
+		}
+		if ct, err := control.ParseControl(bufio.NewReader(bytes.NewReader(in)), "debian/control"); err == nil {
+			anyErr = false
+			out = append(out, ct.Source.Maintainers())
+		}
+		return jsonRepr(out, nil), anyErr, ""
+	}},
 	{"changelog.Parse", func(in []byte) (string, bool, string) {
 		d, err := changelog.Parse(bytes.NewReader(in))
 		x := ""
@@ -252,6 +285,9 @@ func c18Seed(r *core.Rand) (string, string) {
 		text, _, _ := genChangelog(r, 3).render()
 		return "changelog", text
 	case 7:
+		if r.Bool() { // an index stanza whose dependency fields are present but malformed
+			return "typed", "Package: a\nVersion: 1\nDepends: libc6 (>= 2.30\nPre-Depends: x [amd64\nBreaks: y (<> 1)\nBuild-Depends: ${z\nBinary: a\nMaintainer: m\nArchitecture: any\n"
+		}
 		return "typed", "Package: a\nBinary: a, b\nVersion: 1.0-1\nMaintainer: x\nArchitecture: any all\nFiles:\n d41d8cd98f00b204e9800998ecf8427e 0 a_1.dsc\nChecksums-Sha256:\n e3b0c44298fc1c149afbf4c8996fb92427ae41e4649b934ca495991b7852b855 0 a_1.dsc\nInstalled-Size: 12\nSize: 7\n"
 	default:
 		return "raw", string(r.Bytes(r.Range(0, 60)))
@@ -292,7 +328,7 @@ func c18Mutate(r *core.Rand, s string) string {
 			b = append(b[:i], append([]byte(strings.Repeat(open, r.Range(2, 40))), b[i:]...)...)
 		case 7: // numeric edge
 			i := r.Intn(len(b) + 1)
-			b = append(b[:i], append([]byte(r.Pick([]string{"99999999999999999999", "-1", "0x10", "1e9", " 18446744073709551616 "})), b[i:]...)...)
+			b = append(b[:i], append([]byte(r.Pick([]string{"99999999999999999999", "-1", "0x10", "1e9", " 18446744073709551616 ", "-0:", "-00:1", "+0:", "-0:1.0-1", "0:-1"})), b[i:]...)...)
 		}
 		if len(b) == 0 {
 			b = []byte{'\n'}
